@@ -888,3 +888,90 @@ Proof.
   destruct (set_slot TG PW q c slots i x) as [s' r] eqn:SS. inversion H; subst.
   apply set_slot_reject_unchanged in SS. subst. reflexivity.
 Qed.
+
+(* ================================================================ 5. evaluation of value expressions *)
+Section vexpr_nested_ind.
+  Variable P : vexpr -> Prop.
+  Hypothesis HVal : forall v, P (XVal v).
+  Hypothesis HList : forall l, Forall P l -> P (XList l).
+  Hypothesis HDict : forall l, Forall (fun p => P (snd p)) l -> P (XDict l).
+  Hypothesis HNd : forall dt l, Forall P l -> P (XNd dt l).
+  Hypothesis HNew : forall t l, Forall P l -> P (XNew t l).
+  Fixpoint vexpr_nested_ind (e : vexpr) : P e :=
+    match e with
+    | XVal v => HVal v
+    | XList l => HList l ((fix go (l : list vexpr) : Forall P l :=
+                             match l with [] => Forall_nil P | x :: r => Forall_cons x (vexpr_nested_ind x) (go r) end) l)
+    | XDict l => HDict l ((fix go (l : list (nat * vexpr)) : Forall (fun p => P (snd p)) l :=
+                             match l with
+                             | [] => Forall_nil _
+                             | x :: r => Forall_cons (P := fun p => P (snd p)) x (vexpr_nested_ind (snd x)) (go r)
+                             end) l)
+    | XNd dt l => HNd dt l ((fix go (l : list vexpr) : Forall P l :=
+                             match l with [] => Forall_nil P | x :: r => Forall_cons x (vexpr_nested_ind x) (go r) end) l)
+    | XNew t l => HNew t l ((fix go (l : list vexpr) : Forall P l :=
+                             match l with [] => Forall_nil P | x :: r => Forall_cons x (vexpr_nested_ind x) (go r) end) l)
+    end.
+End vexpr_nested_ind.
+
+Lemma no_obj_wf : forall db strict v, no_obj v = true -> wfv PW db strict v = true.
+Proof.
+  intros db strict v. induction v using pyval_nested_ind; cbn [no_obj wfv]; intros N; try reflexivity; try discriminate.
+  - induction H as [|a r Ha _ IH]; [reflexivity|]. cbn [forallb] in *. apply andb_true_iff in N. destruct N as [Na Nr].
+    rewrite (Ha Na), (IH Nr). reflexivity.
+  - induction H as [|a r Ha _ IH]; [reflexivity|]. cbn [forallb] in *. apply andb_true_iff in N. destruct N as [Na Nr].
+    rewrite (Ha Na), (IH Nr). reflexivity.
+Qed.
+
+Definition ev_list (q : bool) (db : tdb) := fix go (l : list vexpr) : res (list pyval) :=
+  match l with [] => Ok [] | a :: r => v <- eval TG PW q db a ;; vs <- go r ;; Ok (v :: vs) end.
+Definition ev_dict (q : bool) (db : tdb) := fix go (l : list (nat * vexpr)) : res (list (nat * pyval)) :=
+  match l with [] => Ok [] | (k, a) :: r => v <- eval TG PW q db a ;; vs <- go r ;; Ok ((k, v) :: vs) end.
+
+Lemma eval_XList : forall q db l, eval TG PW q db (XList l) = (vs <- ev_list q db l ;; Ok (PList vs)).
+Proof. reflexivity. Qed.
+Lemma eval_XDict : forall q db l, eval TG PW q db (XDict l) = (vs <- ev_dict q db l ;; Ok (PDict vs)).
+Proof. reflexivity. Qed.
+Lemma eval_XNd : forall q db dt l, eval TG PW q db (XNd dt l) =
+  (vs <- ev_list q db l ;; es <- mapM (conv_leaf dt) vs ;; Ok (PArr dt es)).
+Proof. reflexivity. Qed.
+Lemma eval_XNew : forall q db tid kw, eval TG PW q db (XNew tid kw) = (vs <- ev_list q db kw ;; construct TG PW q db tid vs).
+Proof. reflexivity. Qed.
+Lemma ev_list_cons : forall q db a r, ev_list q db (a :: r) = (v <- eval TG PW q db a ;; vs <- ev_list q db r ;; Ok (v :: vs)).
+Proof. reflexivity. Qed.
+Lemma ev_dict_cons : forall q db k a r, ev_dict q db ((k, a) :: r) = (v <- eval TG PW q db a ;; vs <- ev_dict q db r ;; Ok ((k, v) :: vs)).
+Proof. reflexivity. Qed.
+
+Lemma ev_list_ok : forall q db strict l,
+  Forall (fun a => forall v, eval TG PW q db a = Ok v -> wfv PW db strict v = true) l ->
+  forall vs, ev_list q db l = Ok vs -> forallb (wfv PW db strict) vs = true.
+Proof.
+  intros q db strict l H. induction H as [|a r Ha _ IH]; intros vs E.
+  - inversion E; reflexivity.
+  - rewrite ev_list_cons in E. destruct (eval TG PW q db a) as [v|] eqn:Ea; cbn [bind] in E; [|discriminate].
+    destruct (ev_list q db r) as [vs'|] eqn:Er; cbn [bind] in E; [|discriminate].
+    inversion E; subst. cbn [forallb]. rewrite (Ha _ eq_refl), (IH _ eq_refl). reflexivity.
+Qed.
+
+Theorem eval_ok : forall q db (strict : bool),
+  (strict = false \/ q = false \/ db_std_elems PW db = true) -> db_wok db = true ->
+  forall e v, eval TG PW q db e = Ok v -> wfv PW db strict v = true.
+Proof.
+  intros q db strict Sd Wdb e. induction e using vexpr_nested_ind; intros out E.
+  - cbn [eval] in E. destruct (no_obj v) eqn:N; inversion E; subst. apply no_obj_wf; exact N.
+  - rewrite eval_XList in E. destruct (ev_list q db l) as [vs|] eqn:El; cbn [bind] in E; inversion E; subst.
+    cbn [wfv]. eapply ev_list_ok; eauto.
+  - rewrite eval_XDict in E. destruct (ev_dict q db l) as [vs|] eqn:El; cbn [bind] in E; inversion E; subst.
+    cbn [wfv]. clear E. revert vs El. induction H as [|[k a] r Ha _ IH]; intros vs El.
+    + inversion El; reflexivity.
+    + rewrite ev_dict_cons in El. cbn [snd] in Ha.
+      destruct (eval TG PW q db a) as [v|] eqn:Ea; cbn [bind] in El; [|discriminate].
+      destruct (ev_dict q db r) as [vs'|] eqn:Er; cbn [bind] in El; [|discriminate].
+      inversion El; subst. cbn [forallb snd]. rewrite (Ha _ eq_refl), (IH _ eq_refl). reflexivity.
+  - rewrite eval_XNd in E. destruct (ev_list q db l) as [vs|] eqn:El; cbn [bind] in E; [|discriminate].
+    destruct (mapM (conv_leaf dt) vs) as [es|] eqn:M; cbn [bind] in E; inversion E; subst.
+    apply mapM_Forall2 in M. eapply conv_all in M; [|eapply ev_list_ok; eauto].
+    destruct M as (_ & F & W). cbn [wfv]. rewrite F, W. reflexivity.
+  - rewrite eval_XNew in E. destruct (ev_list q db l) as [vs|] eqn:El; cbn [bind] in E; [|discriminate].
+    eapply construct_ok; eauto. eapply ev_list_ok; eauto.
+Qed.
